@@ -225,6 +225,7 @@ func runC19(p *eng.Prog, r *eng.Report, tier string) {
 	c.r.Floor("C19.11", "decoders replayed as payloads", nrep, 1)
 	nloop := decoderLoopConsumes(c, "C19.10", inC19)
 	c.r.Note("C19.10: %d start-element edges in token loops examined", nloop)
+	c.r.Floor("C19.34", "start-element edges in the token loops of the payload decoders", decoderLoopVisitsEveryChild(c, "C19.34", inC19), 1)
 	ntag := tagNamespaceAgreement(c, "C19.3", inC19)
 	c.r.Note("C19.3: %d decoder tags with an encoder counterpart examined", ntag)
 	c19FieldCoverage(c)
